@@ -479,7 +479,9 @@ def execute(case, monitors=(), scratch=None, wall=None, keep_world=False):
     old_handler = None
     if wall:
         old_handler = signal.signal(signal.SIGALRM, _alarm)
-        signal.setitimer(signal.ITIMER_REAL, wall)
+        # repeating: an alarm swallowed inside a callback (weakref, __del__)
+        # must fire again
+        signal.setitimer(signal.ITIMER_REAL, wall, 1.0)
     try:
         np.seterr(all='ignore')
         import warnings
